@@ -1,6 +1,9 @@
 ---------------------------- MODULE BitmapTrace ----------------------------
 (* Direction B for C15: events recorded from a real grin chain (harness/bitmap, *)
-(* `record`) are accepted iff, replaying the logged deltas through the actions  *)
+(* `record`: Chain::process_block; `direct`: txhashset::extending { rewind,     *)
+(* apply_block, force_rollback } on a real TxHashSet, several chunks, every     *)
+(* recording starts with an Init event) are accepted iff, replaying the logged  *)
+(* deltas through the actions                                                   *)
 (* of Bitmap.tla (ApplyBlock / RewindTo / Reopen),                              *)
 (*   - the node's real leaf set, the bits held by its real accumulator and the  *)
 (*     set the harness built its from-scratch commitment from all equal the     *)
@@ -10,8 +13,9 @@
 (*   - the real bitmap root equals the from-scratch root (computed by the       *)
 (*     harness from the specification's hash term, not by the accumulator).     *)
 (* Probe = a read-only Extension::rewind (state restored afterwards).           *)
-(* Stay  = a delivery that must leave the state untouched (losing fork block,   *)
-(*         refused block committing to a wrong bitmap).                         *)
+(* Stay  = a delivery that must leave the state untouched (losing fork block    *)
+(*         applied in a rolled-back extension, refused block, a finished        *)
+(*         read-only extension): the COMMITTED root must still be from-scratch. *)
 EXTENDS Bitmap, TLC, Json, IOUtils
 Rec == ndJsonDeserialize(IOEnv.TRACE)
 VARIABLE l
